@@ -688,42 +688,89 @@ theorem stepD_timer_timers (c : Cfg) (s : State) (h : Nat) :
       · simp [hh]
 
 /-- The judged predicate holds on every replay of the model from a well-formed state. -/
+theorem stepD_timers_finish (c : Cfg) (s : State) (t : Nat) (o : Outcome) :
+    (stepD c s (.finish t o)).timers = s.timers := by
+  simp only [stepD, step]
+  cases s.pcs[t]? with
+  | none => rfl
+  | some pc =>
+    cases pc with
+    | forwarding h => cases o <;> rfl
+    | idle => rfl
+    | selected _ => rfl
+    | failed _ => rfl
+    | done => rfl
+
+/-- the extra action of a cancelled request keeps what `advance_spec` established -/
+theorem afterCancel_spec (c : Cfg) (ex : Expiry) (s : State) (t : Nat) (r : State × Label)
+    (hw : WF c r.1) (htim : r.1.timers = outstandingAfter ex s.timers r.2) (hlab : labelOK c s r.2) :
+    WF c (afterCancel c t r).1 ∧ (afterCancel c t r).1.timers = outstandingAfter ex s.timers (afterCancel c t r).2 ∧
+      labelOK c s (afterCancel c t r).2 := by
+  obtain ⟨s', l⟩ := r
+  cases l with
+  | fwd h =>
+    refine ⟨wf_stepD c _ _ hw, ?_, trivial⟩
+    show (stepD c s' (.finish t .cancel)).timers = _
+    rw [stepD_timers_finish]
+    exact htim
+  | sel _ => exact ⟨hw, htim, hlab⟩
+  | none => exact ⟨hw, htim, hlab⟩
+  | lost _ => exact ⟨hw, htim, hlab⟩
+  | fin _ _ => exact ⟨hw, htim, hlab⟩
+  | noop => exact ⟨hw, htim, hlab⟩
+  | exp _ => exact ⟨hw, htim, hlab⟩
+  | final => exact ⟨hw, htim, hlab⟩
+
 theorem verdictGo_replay (c : Cfg) (ex : Expiry) (hcf : c.countFails = (ex != .off)) :
-    ∀ (es : List (Nat × Nat)) (s : State) (q : List Nat), WF c s →
-      verdictGo c ex s.timers (inflightList c s) (replay c ex s q es) = "ok" := by
+    ∀ (es : List (Nat × Nat)) (s : State) (q cs : List Nat), WF c s →
+      verdictGo c ex s.timers (inflightList c s) (replay c ex s q cs es) = "ok" := by
   intro es
   induction es with
   | nil =>
-    intro s q hw
+    intro s q cs hw
     simp only [replay, verdictGo]
     have : outstandingAfter ex s.timers (snap c s .final).label = s.timers := rfl
     rw [this, checkSnap_none c s s .final hw hw trivial (by intro h hh; cases hh) (by intro hh; cases hh)]
   | cons e es ih =>
-    intro s q hw
+    intro s q cs hw
     obtain ⟨t, x⟩ := e
+    have hnoop : ∀ (rest : List Snap), verdictGo c ex s.timers (inflightList c s) rest = "ok" →
+        verdictGo c ex s.timers (inflightList c s) (snap c s .noop :: rest) = "ok" := by
+      intro rest hrest
+      simp only [verdictGo]
+      have : outstandingAfter ex s.timers (snap c s .noop).label = s.timers := rfl
+      rw [this, checkSnap_none c s s .noop hw hw trivial (by intro h hh; cases hh) (by intro hh; cases hh)]
+      exact hrest
     by_cases ht : t = waitMark
     · simp only [replay, ht, if_true]
       cases q with
-      | nil =>
-        simp only [verdictGo]
-        have : outstandingAfter ex s.timers (snap c s .noop).label = s.timers := rfl
-        rw [this, checkSnap_none c s s .noop hw hw trivial (by intro h hh; cases hh) (by intro hh; cases hh)]
-        exact ih s [] hw
+      | nil => exact hnoop _ (ih s [] cs hw)
       | cons h q' =>
         simp only [verdictGo]
         have hw' := wf_stepD c s (.timer h) hw
         have hout : outstandingAfter ex s.timers (snap c (stepD c s (.timer h)) (.exp h)).label =
             (stepD c s (.timer h)).timers := by rw [stepD_timer_timers]; rfl
         rw [hout, checkSnap_none c s _ (.exp h) hw hw' trivial (by intro h hh; cases hh) (by intro hh; cases hh)]
-        exact ih _ q' hw'
+        exact ih _ q' cs hw'
     · simp only [replay, ht, if_false]
-      obtain ⟨hw', htim, hlab⟩ := advance_spec c ex s t x hw hcf
-      simp only [verdictGo]
-      have hout : outstandingAfter ex s.timers (snap c (advance c ex s t x).1 (advance c ex s t x).2).label =
-          (advance c ex s t x).1.timers := by rw [htim]; rfl
-      rw [hout]
-      rw [checkSnap_none c s (advance c ex s t x).1 (advance c ex s t x).2 hw hw' hlab
-        (by intro h hh; rw [htim, hh]; rfl) (by intro hh; rw [htim, hh]; rfl)]
-      exact ih _ _ hw'
+      by_cases hcm : t ≥ cancelMark
+      · simp only [hcm, if_true]
+        exact hnoop _ (ih s q _ hw)
+      · simp only [hcm, if_false]
+        obtain ⟨hw0, htim0, hlab0⟩ := advance_spec c ex s t x hw hcf
+        have key : ∀ r : State × Label, WF c r.1 → r.1.timers = outstandingAfter ex s.timers r.2 → labelOK c s r.2 →
+            ∀ q', verdictGo c ex s.timers (inflightList c s) (snap c r.1 r.2 :: replay c ex r.1 q' cs es) = "ok" := by
+          intro r hw' htim hlab q'
+          simp only [verdictGo]
+          have hout : outstandingAfter ex s.timers (snap c r.1 r.2).label = r.1.timers := by rw [htim]; rfl
+          rw [hout, checkSnap_none c s r.1 r.2 hw hw' hlab
+            (by intro h hh; rw [htim, hh]; rfl) (by intro hh; rw [htim, hh]; rfl)]
+          exact ih _ _ cs hw'
+        by_cases hc : cs.contains t = true
+        · simp only [hc, if_true]
+          obtain ⟨h1, h2, h3⟩ := afterCancel_spec c ex s t _ hw0 htim0 hlab0
+          exact key _ h1 h2 h3 _
+        · simp only [hc, Bool.false_eq_true, if_false]
+          exact key _ hw0 htim0 hlab0 _
 
 end Casket.Accounting
